@@ -26,8 +26,21 @@ namespace nmtools::index
         if constexpr (!meta::is_constant_index_array_v<return_t>) {
             // TODO: use index_type instead of size_t
             // stop behind start (in the direction of step): empty range (as in numpy)
-            const auto n = float(stop - start) / step;
-            size_t d = (n > 0) ? ceil_(n) : 0;
+            size_t d = 0;
+            if constexpr (meta::is_floating_point_v<step_t> || meta::is_floating_point_v<start_t> || meta::is_floating_point_v<stop_t>) {
+                const auto n = float(stop - start) / step;
+                d = (n > 0) ? ceil_(n) : 0;
+            } else {
+                // integer start, stop and step: exact integer ceiling, no binary32 round trip
+                // (float(stop - start) / step loses counts once the difference or the step exceeds 2^24)
+                const long long n = static_cast<long long>(stop) - static_cast<long long>(start);
+                const long long s = static_cast<long long>(step);
+                if (s > 0 && n > 0) {
+                    d = static_cast<size_t>((n + s - 1) / s);
+                } else if (s < 0 && n < 0) {
+                    d = static_cast<size_t>((-n - s - 1) / (-s));
+                }
+            }
             at(ret,0) = d;
         }
         return ret;
